@@ -1047,6 +1047,29 @@ func (w *World) dynTypes(v ssa.Value, visitorType string, depth int, seen map[*s
 				}
 			}
 			if ctxName != "" && vt != "" {
+				// a rule with labelled alternatives: the node is one of the alternatives' contexts, each dispatching to its own
+				// Visit<Label>; a visitor without that method inherits the base visitor's, which returns nil
+				if alts := w.altContextsOf(ctxName); len(alts) > 0 {
+					if depth > 6 {
+						out["?"] = true
+						return out
+					}
+					for _, alt := range alts {
+						m := lookupFunc(w.Parser, vt, "Visit"+strings.TrimSuffix(alt, "Context"))
+						if m == nil {
+							out["nil"] = true
+							continue
+						}
+						if !w.isSubjectFunc(m) {
+							out["?"] = true
+							continue
+						}
+						for t := range w.returnTypes(m, 0, vt, depth+1, seen) {
+							out[t] = true
+						}
+					}
+					return out
+				}
 				m := lookupFunc(w.Parser, vt, "Visit"+strings.TrimSuffix(ctxName, "Context"))
 				if m != nil && w.isSubjectFunc(m) {
 					return w.returnTypes(m, 0, vt, depth+1, seen)
@@ -3394,4 +3417,35 @@ func (w *World) elemOfInlineObjectList(v ssa.Value) bool {
 		}
 	}
 	return true
+}
+
+// altContextsOf: ctxName is the context (interface) of a parser rule whose alternatives are all labelled: the context types of
+// the alternatives (the dynamic types a node of that rule can have).
+func (w *World) altContextsOf(ctxName string) []string {
+	var rule string
+	for _, ci := range w.G4.Contexts() {
+		if ci.CtxType == ctxName && ci.AltLabel == "" {
+			rule = ci.Rule
+		}
+	}
+	if rule == "" {
+		// the base context of a rule with labelled alternatives is not a node type of its own
+		name := strings.TrimSuffix(ctxName, "Context")
+		for _, pr := range w.G4.PRules {
+			if title(pr.Name) == name {
+				rule = pr.Name
+			}
+		}
+	}
+	if rule == "" {
+		return nil
+	}
+	var out []string
+	for _, ci := range w.G4.Contexts() {
+		if ci.Rule == rule && ci.AltLabel != "" {
+			out = append(out, ci.CtxType)
+		}
+	}
+	sort.Strings(out)
+	return out
 }
